@@ -69,6 +69,8 @@ def depth_for(tier):
 # thorough only: one more length over the version alphabet alone, one more depth over a reduced value list
 VERSION_SYMBOLS = [0, 1, 2, 3, 4, 5, 6, 7]         # indexes into SYMBOLS: 0 1 a . + ~ - :
 DEEP_LEN = 8
+STRUCTURE_SYMBOLS = [0, 2, 7, 6]                    # indexes into SYMBOLS: 0 a : -
+STRUCTURE_LEN = 7
 DEEP_VALUES = [None, "1", "a-b", "x:y"]
 DEEP_DEPTH = 5
 PREFIX3_FROM = 7                                    # acceptance units of this length and longer have 3-symbol prefixes
@@ -97,7 +99,8 @@ def digit_runs(tier):
 
 
 def bounds(tier):
-    acc = {"alphabet": SYMBOLS, "max_length": n_for(tier)}
+    acc = {"alphabet": SYMBOLS, "max_length": n_for(tier),
+           "structure": "every string of length %d..%d over %r" % (n_for(tier) + 1, STRUCTURE_LEN, [SYMBOLS[i] for i in STRUCTURE_SYMBOLS])}
     asg = {"starts": STARTS, "attributes": ATTRS, "values": VALUES, "depth": depth_for(tier)}
     if tier != "quick":
         acc["longer"] = "every string of length %d over the %d version-alphabet symbols %r" % (
@@ -220,6 +223,17 @@ def _units(tier, seed):
             out += [{"k": "accept", "len": length, "prefix": [i, j]} for i in range(k) for j in range(k)]
         else:
             out += [{"k": "accept", "len": length, "prefix": [i, j, l]} for i in range(k) for j in range(k) for l in range(k)]
+    # longer strings over the four symbols that decide the STRUCTURE of a version (a digit, a letter, the colon, the hyphen):
+    # every string of length n+1 .. 7 (several colons and hyphens in every order, e.g. '0:1-:')
+    st = STRUCTURE_SYMBOLS
+    for length in range(n_for(tier) + 1, STRUCTURE_LEN + 1):
+        out += [{"k": "accept", "len": length, "prefix": [i, j, l], "alphabet": st} for i in st for j in st for l in st]
+    if tier != "quick":
+        # lengths between the full walk and DEEP_LEN over the version alphabet
+        vs = VERSION_SYMBOLS
+        for length in range(n_for(tier) + 1, DEEP_LEN):
+            out += [{"k": "accept", "len": length, "prefix": [i, j, l], "alphabet": vs, "skip_structure": True}
+                    for i in vs for j in vs for l in vs]
     if tier != "quick":
         # one more length over the version alphabet alone (shorter strings over it are part of the walk above)
         vs = VERSION_SYMBOLS
@@ -790,6 +804,10 @@ def unit_accept(part, u, seed):
         pre = tuple(syms[i] for i in u["prefix"])
         tail = [syms[i] for i in u["alphabet"]] if "alphabet" in u else syms
         todo = [pre + t for t in itertools.product(tail, repeat=u["len"] - len(pre))]
+        if u.get("skip_structure"):
+            # (the strings over the structure symbols alone belong to the structure units)
+            st = set(syms[i] for i in STRUCTURE_SYMBOLS)
+            todo = [t for t in todo if not st.issuperset(t)]
     for t in todo:
         s = "".join(t)
         bad, cls, nontrivial = run_string(s)
@@ -802,7 +820,8 @@ def unit_accept(part, u, seed):
         for sig, exp, obs in bad:
             part.violation(sig, {"k": "string", "s": s}, exp, obs)
     part.max_depth = u["len"]
-    part.sample({"k": "string", "s": "".join(todo[len(todo) // 3])})
+    if todo:
+        part.sample({"k": "string", "s": "".join(todo[len(todo) // 3])})
     return part
 
 
